@@ -1607,6 +1607,9 @@ func genC06(rec *lib.Rec, r *lib.Rng, thorough bool) {
 	for i := 0; i < n; i++ {
 		rec.Op("M", "rpcq script "+outboundScript(r, 3+r.Intn(18)), true)
 	}
+	for i := 0; i < n/3; i++ {
+		rec.Op("M", "embargo sched "+embargoSchedule(r, 3+r.Intn(12)), true)
+	}
 	genRPCCheck(rec, r, n/2, false, false)
 }
 
